@@ -20,6 +20,9 @@ type ProgEval struct {
 	Built    bool
 	Run      *ProgRun // runner report (nil if not run)
 	RunErr   string
+	// RunCrash: this program's generated code killed (or hung) the process
+	// that ran it; RunErr has the details.
+	RunCrash bool
 	Files    map[string]string
 	Verdicts []*Verdict
 }
@@ -169,29 +172,60 @@ func evalChunk(c *Ctx, specs []*Spec, out []*ProgEval, base int, o PipeOpts) {
 		c.Inconclusive("building the runner failed: " + tail(r.Stderr, 2000))
 		return
 	}
-	r := w.Env.Run(w.Dir, 5*time.Minute, nil, bin)
-	if r.TimedOut {
-		c.Inconclusive("runner timed out")
-		return
-	}
-	sc := bufio.NewScanner(strings.NewReader(r.Stdout))
-	sc.Buffer(make([]byte, 1<<20), 1<<28)
-	for sc.Scan() {
-		var pr ProgRun
-		if err := json.Unmarshal(sc.Bytes(), &pr); err != nil {
-			continue
+	// The programs run in one process, in order.  A program that kills the
+	// process (fatal error such as a stack overflow, os.Exit, runaway memory)
+	// or hangs is identified as the first one without a report; the rest are
+	// run again without it.
+	todo := runnable
+	crashes := 0
+	for len(todo) > 0 {
+		args := []string{}
+		if len(todo) != len(runnable) {
+			args = todo
 		}
-		if i, ok := idx[pr.Name]; ok {
-			p := pr
-			out[i].Run = &p
-		}
-	}
-	if r.Exit != 0 {
-		// a crash outside recover (e.g. fatal error) loses the remaining programs
-		for _, n := range runnable {
-			if out[idx[n]].Run == nil {
-				out[idx[n]].RunErr = "runner died: " + tail(r.Stderr, 1500)
+		r := w.Env.Run(w.Dir, 5*time.Minute, nil, bin, args...)
+		sc := bufio.NewScanner(strings.NewReader(r.Stdout))
+		sc.Buffer(make([]byte, 1<<20), 1<<28)
+		for sc.Scan() {
+			var pr ProgRun
+			if err := json.Unmarshal(sc.Bytes(), &pr); err != nil {
+				continue
 			}
+			if i, ok := idx[pr.Name]; ok {
+				p := pr
+				out[i].Run = &p
+			}
+		}
+		var missing []string
+		for _, n := range todo {
+			if out[idx[n]].Run == nil {
+				missing = append(missing, n)
+			}
+		}
+		if len(missing) == 0 {
+			break
+		}
+		if r.Exit == 0 && !r.TimedOut {
+			for _, n := range missing {
+				out[idx[n]].RunErr = "the runner finished without a report for this program"
+			}
+			break
+		}
+		culprit := missing[0]
+		what := fmt.Sprintf("the process running the generated code died (exit %d)", r.Exit)
+		if r.TimedOut {
+			what = "the process running the generated code did not finish within 5 minutes"
+		}
+		out[idx[culprit]].RunErr = what + ":\n" + tail(r.Stderr, 1500)
+		out[idx[culprit]].RunCrash = true
+		crashes++
+		todo = missing[1:]
+		if crashes >= 25 {
+			for _, n := range todo {
+				out[idx[n]].RunErr = "not run: too many crashing programs in this batch"
+			}
+			c.Inconclusive("more than 25 programs of one batch crash the runner")
+			break
 		}
 	}
 }
